@@ -406,9 +406,14 @@ int __wrap_fclose (FILE *f) {
   int fail = pre (&r, &idx, "fclose", SITE);
   r->stream = f; r->fd = fileno (f);
   untrack_stream (f);
-  if (fail) {                   /* the stream is gone either way; the caller is told the flush failed */
+  if (fail) {                   /* the final flush fails: what was still buffered never reaches the file, the stream is gone */
     int e = errno;
+    struct stat st;
+    int fd = fileno (f), keep = fd >= 0 ? dup (fd) : -1;
+    int have = keep >= 0 && __real_fstat (keep, &st) == 0 && S_ISREG (st.st_mode);
     __real_fclose (f);
+    if (have && ftruncate (keep, st.st_size)) {}
+    if (keep >= 0) __real_close (keep);
     if (idx == fs_crash_at && fs_crash_after) crash_now (r);
     errno = e;
     return EOF;
